@@ -99,6 +99,11 @@ class Builtins:
         return self.new_list(seq, st, k, pyitems=vs)
 
     def new_dict_from_pairs(self, pairs, st, k):
+        if pairs and all(isinstance(kk, VStr) and kk.const is not None for kk, _v in pairs) and \
+                any(isinstance(vv, VFunc) for _k, vv in pairs):
+            # a literal table {"name": function, ...}: kept at the Python level
+            r, st2 = self.alloc(st, HObj("dict", None, None, None, {"pydict": {kk.const: vv for kk, vv in pairs}}))
+            return k(r, st2)
         m = EMPTY_MAP
         for kk, vv in pairs:
             m = z3.Store(m, as_val(self.cx, kk, st), Opt.some(as_val(self.cx, vv, st)))
@@ -250,6 +255,17 @@ class Builtins:
                                             [key], {}, st, k)
             if h.kind in ("list", "tuple"):
                 return self.list_getitem(obj, key, st, k)
+            if h.kind == "dict" and "pydict" in h.meta:
+                table = h.meta["pydict"]
+                if isinstance(key, VStr) and key.const is not None:
+                    return k(table[key.const], st) if key.const in table else raise_(st, "KeyError")
+                if isinstance(key, VStr) and key.t is not None:
+                    out = []
+                    for name, v in table.items():
+                        out += cx.branch(st, key.t == z3.StringVal(name), lambda s, v=v: k(v, s), lambda s: [])
+                    out += cx.branch(st, z3.And(*[key.t != z3.StringVal(n_) for n_ in table]), lambda s: raise_(s, "KeyError"), lambda s: [])
+                    return out
+                raise Unsupported("literal table indexed by %r" % (key,))
             if h.kind == "dict":
                 kv = as_val(cx, key, st)
                 return cx.branch(st, h.payload[kv] != Opt.none,
